@@ -561,7 +561,7 @@ def name_flavour_rule(chk, P, key, doc, select, families, module_stems, floor):
     chk.ob(key, doc, f)
 
 
-def wrapper_family_rule(chk, P, prefix, trait, floor, allow=None, check_return=True, synonyms=None):
+def wrapper_family_rule(chk, P, prefix, trait, floor, allow=None, check_return=True, synonyms=None, forward=True):
     """Sibling agreement for the wrappers and bridges of one trait (&T, Box<T>, Arc<T>, Option<T>, AssertInternal<T>, dyn Erased..):
     (1) every one of them defines every method any of them defines - a wrapper that leaves one to the trait's default silently replaces the
     wrapped value's own implementation of it by the default (`allow` lists (self type prefix, method) pairs with a reason);
@@ -587,7 +587,7 @@ def wrapper_family_rule(chk, P, prefix, trait, floor, allow=None, check_return=T
                                "`%s` is replaced by the trait's default" % (trait.rsplit("::", 1)[-1], i["self_ty"], m, m)), [], i.get("span")
         return True, "", ["%d wrappers x %d methods" % (len(ws), len(union))] + ev
     chk.ob("%s.family:%s:complete" % (prefix, trait.rsplit("::", 1)[-1]), "every wrapper of the trait defines every method its siblings forward", complete)
-    for b in P.find(trait=trait):
+    for b in (P.find(trait=trait) if forward else ()):
         if b.is_closure or not is_wrapper_self(b.self_ty or "") or (b.self_ty or "").startswith("core::option::Option"):
             continue
         cr = check_return and not (b.self_ty or "").startswith("(dyn")
